@@ -548,13 +548,57 @@ def judge(mod, rec) -> dict:
 
 # --------------------------------------------------------------------------- stream histories
 
-def impl_ops(stream, queries):
-    """apply a history to a real stream object; returns {"answers", "errors"}; stops at the first error."""
+def _handles(stream, raw):
+    """the underlying file object(s) of a stream: given explicitly, or the stream's `fh`"""
+    if raw is None:
+        raw = getattr(stream, "fh", None)
+    if raw is None:
+        return []
+    return list(raw) if isinstance(raw, (list, tuple)) else [raw]
+
+
+def _disturb(handles, q):
+    """["x", what, ...]: somebody else uses the file object(s) the stream sits on, between two requests of the history.
+    seek <pos> [whence] | read <n> (from wherever the handle stands) | seekread <pos> <n> | end (seek to EOF) | start.
+    Never answers; the immutable-array specification (truth_ops) and the model (op_tokens) skip it."""
+    what = q[1]
+    for fh in handles:
+        if what == "seek":
+            fh.seek(q[2], q[3] if len(q) > 3 else 0)
+        elif what == "read":
+            fh.read(q[2])
+        elif what == "seekread":
+            fh.seek(q[2])
+            fh.read(q[3])
+        elif what == "end":
+            fh.seek(0, 2)
+        elif what == "start":
+            fh.seek(0)
+        else:
+            raise RuntimeError(f"bad disturbance {q}")
+
+
+def impl_ops(stream, queries, raw=None, twin=None):
+    """apply a history to a real stream object; returns {"answers", "errors"}; stops at the first error.
+    raw: the file object(s) under the stream, for ["x", ...] (default: stream.fh); twin: callable that opens a SECOND stream object
+    over the same file object(s) (opened at its first use), for ["y", off, n] = seek+read through that second object.
+    errors are keyed by the index of the answer (= index of the query when the history has no "x" operations)."""
     answers, errors = [], {}
+    second = []
     for i, q in enumerate(queries):
         try:
             k = q[0]
-            if k == "o":
+            if k == "x":
+                _disturb(_handles(stream, raw), q)
+                continue
+            if k == "y":
+                if not second:
+                    if twin is None:
+                        raise RuntimeError("history uses a second stream object but the module provides none")
+                    second.append(twin() if callable(twin) else twin)
+                second[0].seek(q[1])
+                answers.append(crc_answer(second[0].read(q[2])))
+            elif k == "o":
                 stream.seek(q[1])
                 answers.append(crc_answer(stream.read(q[2])))
             elif k == "O":           # readoffset
@@ -577,13 +621,15 @@ def impl_ops(stream, queries):
                 raise RuntimeError(f"bad query {q}")
         except Exception as e:  # noqa
             answers.append("E")
-            errors[str(i)] = f"{type(e).__name__}: {e}"[:300]
+            errors[str(len(answers) - 1)] = f"{type(e).__name__}: {e}"[:300]
             break
     return {"answers": answers, "errors": errors}
 
 
 def op_tokens(queries) -> list[str]:
-    """driver tokens; 'o' (seek+read) becomes two model ops whose first answer is dropped by model_ops_answers"""
+    """driver tokens of the history on the (first) stream object. ["x", ...] (somebody else moves the underlying handle) has no
+    token: the model has no handle position at all; ["y", off, n] (a second stream object) is answered by a model run of its own
+    (twin_tokens / merge_twin)"""
     toks = []
     for q in queries:
         k = q[0]
@@ -602,6 +648,59 @@ def op_tokens(queries) -> list[str]:
         elif k == "S":
             toks.append(f"S{q[1]}:{q[2]}")
     return toks
+
+
+def has_twin(queries) -> bool:
+    return any(q[0] == "y" for q in queries)
+
+
+def twin_tokens(queries) -> list[str]:
+    """driver tokens of the sub-history seen by the second stream object (every ["y", off, n] is a seek + read on it)"""
+    return [f"o{q[1]}:{q[2]}" for q in queries if q[0] == "y"]
+
+
+def merge_twin(queries, first, second):
+    """answers of the two model runs (first object / second object) -> one list in history order; ends at the first error or where
+    a run has no answer (a stream stops at its first error, and so does the history)"""
+    if first is None or (second is None and has_twin(queries)):
+        return None
+    out = []
+    i = j = 0
+    for q in queries:
+        if q[0] == "x":
+            continue
+        if q[0] == "y":
+            if j >= len(second):
+                break
+            out.append(second[j])
+            j += 1
+        else:
+            if i >= len(first):
+                break
+            out.append(first[i])
+            i += 1
+        if out[-1] == "E":
+            break
+    return out
+
+
+def disturbances(rng, queries, file_size: int, p: float = 0.35):
+    """a copy of the history in which, between requests, somebody else uses the underlying file object: seeks it to a random
+    position / to either end, or reads a few bytes from it. The expected answers do not change."""
+    out = []
+    for q in queries:
+        out.append(q)
+        if rng.random() < p:
+            w = rng.choice(["seek", "seek", "read", "seekread", "end", "start"])
+            if w == "seek":
+                out.append(["x", "seek", rng.randrange(file_size + 2)])
+            elif w == "read":
+                out.append(["x", "read", rng.choice([1, 4, 16, 512, 4096])])
+            elif w == "seekread":
+                out.append(["x", "seekread", rng.randrange(file_size + 1), rng.choice([1, 4, 512, 8192])])
+            else:
+                out.append(["x", w])
+    return out
 
 
 def parse_stream_answer(line: str):
@@ -624,6 +723,8 @@ def truth_ops(size: int, reader, queries, sector_size: int = 512):
     answers = []
     for q in queries:
         k = q[0]
+        if k == "x":            # somebody else moved the underlying handle: not observable
+            continue
 
         def rd(n, at):
             if n < -1:
@@ -665,27 +766,40 @@ def truth_ops(size: int, reader, queries, sector_size: int = 512):
             answers.append(f"P{pos}")
         elif k == "t":
             answers.append(f"P{pos}")
+        elif k == "y":          # seek + read through a second stream object: its own position, same content
+            d = rd(q[2], q[1])
+            if q[1] < 0 or d is None:
+                answers.append("E"); break
+            answers.append(crc_answer(d))
         elif k == "S":
             ss = sector_size
             answers.append(crc_answer(reader(q[1] * ss, q[2] * ss)))
     return answers
 
 
-def impl_ops_sec(stream, queries):
+def impl_ops_sec(stream, queries, raw=None, twin=None):
     """like impl_ops but also understands ["S", sector, count] = stream.read_sectors(sector, count)"""
     answers, errors = [], {}
+    second = []
+
+    def the_twin():
+        if not second:
+            if twin is None:
+                raise RuntimeError("history uses a second stream object but the module provides none")
+            second.append(twin() if callable(twin) else twin)
+        return second[0]
     for i, q in enumerate(queries):
         if q[0] == "S":
             try:
                 answers.append(crc_answer(stream.read_sectors(q[1], q[2])))
             except Exception as e:  # noqa
                 answers.append("E")
-                errors[str(i)] = f"{type(e).__name__}: {e}"[:300]
+                errors[str(len(answers) - 1)] = f"{type(e).__name__}: {e}"[:300]
                 break
         else:
-            r = impl_ops(stream, [q])
+            r = impl_ops(stream, [q], raw=raw, twin=the_twin)
             answers += r["answers"]
             if r["errors"]:
-                errors[str(i)] = list(r["errors"].values())[0]
+                errors[str(len(answers) - 1)] = list(r["errors"].values())[0]
                 break
     return {"answers": answers, "errors": errors}
